@@ -53,6 +53,14 @@ func Gen(t *rapid.T, p Profile) Case {
 	}
 	if p.ForceVlog {
 		c.Cfg.ValueThreshold = 32
+		if rapid.Bool().Draw(t, "hotcold") {
+			// hot/cold bucket routing: a key moves to a hot bucket after two writes, so its
+			// newer values live in another bucket than its older ones
+			c.Cfg.Buckets = rapid.SampledFrom([]int{2, 3}).Draw(t, "hcBuckets")
+			c.Cfg.HotBuckets = 1
+			c.Cfg.HotAfter = 2
+			c.Cfg.VlogFileSize = 64 << 10
+		}
 	}
 	maxOps := p.MaxOps
 	if maxOps == 0 {
